@@ -103,12 +103,12 @@ Qed.
 End Loop.
 
 (* powmod(W,P,e,U0) for every exponent e >= 1: the loop runs on U = setdegree U0 (stripped in place) *)
-Lemma powmod_cong : forall kthr sthr P U0 (e : positive), 1 <= kthr ->
+Lemma powmod_cong : forall kthr sthr e0 P U0 (e : positive), 1 <= kthr ->
   (forall A, eqv (sqr D kthr sthr A) (pmul A A)) ->
   (forall A, cong (setdegree D U0) (modin D A (setdegree D U0)) A) ->
-  cong (setdegree D U0) (powmod D kthr sthr P (Npos e) U0) (pun P (Pos.to_nat e)).
+  cong (setdegree D U0) (powmod D kthr sthr e0 P (Npos e) U0) (pun P (Pos.to_nat e)).
 Proof.
-  intros kthr sthr P U0 e Hk Hsqr Hmodin. unfold powmod.
+  intros kthr sthr e0 P U0 e Hk Hsqr Hmodin. unfold powmod.
   eapply cong_trans. { apply cong_of_eqv. apply (setdegree_eqv D OK). }
   eapply cong_trans. { apply (powmod_pos_cong kthr sthr (setdegree D U0) Hk Hsqr Hmodin). }
   eapply cong_trans.
@@ -118,11 +118,11 @@ Proof.
 Qed.
 
 (* with the proved squaring theorem only the modin step remains a hypothesis *)
-Lemma powmod_cong_sqr : forall kthr sthr P U0 (e : positive), 1 <= kthr -> 1 <= sthr ->
+Lemma powmod_cong_sqr : forall kthr sthr e0 P U0 (e : positive), 1 <= kthr -> 1 <= sthr ->
   (forall A, cong (setdegree D U0) (modin D A (setdegree D U0)) A) ->
-  cong (setdegree D U0) (powmod D kthr sthr P (Npos e) U0) (pun P (Pos.to_nat e)).
+  cong (setdegree D U0) (powmod D kthr sthr e0 P (Npos e) U0) (pun P (Pos.to_nat e)).
 Proof.
-  intros kthr sthr P U0 e Hk Hs Hm. apply powmod_cong; try assumption.
+  intros kthr sthr e0 P U0 e Hk Hs Hm. apply powmod_cong; try assumption.
   intros A. constructor. apply (sqr_spec D OK); assumption.
 Qed.
 End Pow.
